@@ -17,11 +17,18 @@ ASSUMPTIONS = [
 def tasks(tier):
     from contracts.wire_ctx import ProposedContextFromWireTask
     from contracts.acse_neg import AcceptorSiteTask
-    return [AcceptorSiteTask("C10/"), N.NegAcceptorTask("C10/"), N.RoleTableTask("C10/"), N.NegUnrestrictedTask("C10/"), N.TsInvariantTask("C10/"),
+    from pyvc.task import NativeBoundedTask
+    return [NativeBoundedTask("C10", "unrestricted-storage-classification-of-every-SOP-class-pynetdicom-knows",
+                              ["pynetdicom.presentation:negotiate_unrestricted"]), AcceptorSiteTask("C10/"), N.NegAcceptorTask("C10/"), N.RoleTableTask("C10/"), N.NegUnrestrictedTask("C10/"), N.TsInvariantTask("C10/"),
             ProposedContextFromWireTask("C10/"), N.NegAcceptorFamilyTask("C10/")]
 
 
-bounded_results = [{"what": "negotiate_as_acceptor executed on 2 proposed contexts x all 15 ordered selections of up to 3 transfer syntaxes on "
+bounded_results = [{"what": "replay/C10.py check_unrestricted_classification (quick tier, native CPython with the real pydicom UID dictionary): which "
+                    "abstract syntaxes negotiate_unrestricted treats as storage-like, for EVERY SOP class in the tables of pynetdicom.sop_class "
+                    "plus a private and an unknown UID - exhaustive over the finite tables, run natively because the classification reads "
+                    "pydicom's UID properties (assumed library)", "bound": "the SOP-class tables of this pynetdicom version (252 UIDs) + 2",
+                    "cases": 254, "counted_as_proved": False},
+                   {"what": "negotiate_as_acceptor executed on 2 proposed contexts x all 15 ordered selections of up to 3 transfer syntaxes on "
                     "each side x supported/unsupported (450 configurations) and compared with the specification",
                     "bound": "2 proposed contexts, 1 supported context, transfer-syntax lists of length <= 3, no role proposals",
                     "cases": 450, "counted_as_proved": False,
